@@ -48,7 +48,7 @@ func init() {
 		Cases: func(master uint64, tier string) []Case {
 			n := 64
 			if tier == "thorough" {
-				n = 1600
+				n = 5500
 			}
 			return seqCases(master, n, nil)
 		},
